@@ -92,14 +92,47 @@ def check(tier, seed, replay=None):
                 e = X.gen_typed(rnd, table, rnd.choice(["num", "str", "any", "bool"]), rnd.choice([1, 2, 3]), X.Env(up=1, cur="obj"))
                 npos = rnd.choice([2, 3, 4])
                 plans.append({"kind": "position", "input": inp, "selects": [X.text(e)] * npos, "extra": [], "split": True, "uses": True})
+        import exprparse as EP
+        # one binder node evaluated several times: the enclosing binding varies (per element, per --split-by element, per record), the inner one is constant
+        NEST = [("(+ :a :b)", "(+ %s %s)"), ("(* :a (+ :b 1))", "(* %s (+ %s 1))"), ("(concat (stringify :a) \"/\" (stringify :b))", "(concat (stringify %s) \"/\" (stringify %s))"),
+                ("(? (< :a :b) :a :b)", "(? (< %s %s) %s %s)"), ("(set \"a\" (+ :a :b) (- :a :b))", "(- (+ %s %s) %s)")]
+        for i in range(60 if quick else 3000):
+            body, tmpl = rnd.choice(NEST)
+            const = rnd.choice(["1", "2.5", "-3"])
+            n = tmpl.count("%s")
+            def filled(outer):
+                seq = {2: (outer, const), 3: (outer, const, const), 4: (outer, const, outer, const)}[n]
+                return tmpl % seq
+            shape = rnd.choice(["map", "split", "records", "macro"])
+            inputs = [X.typed_input(rnd) for _ in range(rnd.choice([2, 3, 4]))]
+            if shape == "map":
+                plans.append({"kind": "nested/map", "input": inputs[0], "inputs": inputs, "split": False, "uses": True, "extra": [],
+                              "selects": ["(map .l (set \"a\" . (set \"b\" %s %s)))" % (const, body), "(map .l %s)" % filled(".")]})
+            elif shape == "split":
+                plans.append({"kind": "nested/split", "input": inputs[0], "inputs": inputs, "split": ".l", "uses": True, "extra": [],
+                              "selects": ["(set \"a\" . (set \"b\" %s %s))" % (const, body), filled(".")]})
+            elif shape == "records":
+                plans.append({"kind": "nested/records", "input": inputs[0], "inputs": inputs, "split": False, "uses": True, "extra": [],
+                              "selects": ["(set \"a\" .n (set \"b\" %s %s))" % (const, body), filled(".n")]})
+            else:
+                plans.append({"kind": "nested/macro", "input": inputs[0], "inputs": inputs, "split": False, "uses": True,
+                              "extra": ["--set=@inner=(set \"b\" %s %s)" % (const, body)],
+                              "selects": ["(push [] (set \"a\" .n @inner) (set \"a\" .m @inner))",
+                                          "(push [] %s %s)" % (filled(".n"), filled(".m"))]})
+        # pipes in which a step hands on the value it was given (or not: data dependent) and a later step looks back with ^
+        PIPES = ["(| .l (sort .) ^)", "(| .n (+ . 0) ^)", "(| .s . ^)", "(| .l (filter . true) (size ^))", "(| .o . (keys ^))", "(| .ls (sort .) (first ^) (size ^^))",
+                 "(| .l (map . (| . (* . 1) ^^.n)))", "(| .n (abs .) (+ ^ ^^.m))", "(| .l (take . 10) (sum ^) (+ . ^^^.n))", "(| .s (concat . \"\") (size ^))",
+                 "(| .o (map_values . .) (size ^) ^^.n)", "(| .lo (sort_by . .v) (map ^ .g))", "(| .b (and . true) ^)", "(| .l . . (size ^^))"]
+        for i in range(40 if quick else 2000):
+            txt = rnd.choice(PIPES)
+            inp = X.typed_input(rnd)
+            plans.append({"kind": "pipe", "input": inp, "selects": [txt], "extra": [], "split": False, "uses": True, "ast": X.strip(EP.parse(txt, table))})
     cases, evalrecs = [], []
     for i, p in enumerate(plans):
         argv = ["--select=%s =s%d" % (t, k) for k, t in enumerate(p["selects"])] + p["extra"]
         if p["split"]:
-            argv.append("--split-by=.lo")
-            # make sure there is at least one element
-        inp = p["input"]
-        cases.append({"id": i, "argv": argv, "stdin": hexs(G.canonical(inp) + b"\n")})
+            argv.append("--split-by=" + (p["split"] if isinstance(p["split"], str) else ".lo"))
+        cases.append({"id": i, "argv": argv, "stdin": hexs(b"".join(G.canonical(inp) + b"\n" for inp in p.get("inputs", [p["input"]])))})
     obs = run_cases(jvh, cases)
     recs, descs = [], []
     for i, p in enumerate(plans):
